@@ -77,7 +77,7 @@ def rand_body(rng, depth, ctxfree=False, rich=True):
         if t == 'tamper': return ['tamper']
         if t == 'raise': return ['raise', 0, 0, 0]
         if t == 'set': return ['set', rng.randrange(2)]
-        if t == 'fcall': return ['fcall', rng.randrange(len(P.PREDS)), rng.randrange(4), 0]
+        if t == 'fcall': return ['fcall', rng.randrange(len(P.PREDS)), rng.randrange(5), 0]
         return [t, 0]
     r = rng.random()
     if r < 0.3: return ['seq', rand_body(rng, depth - 1, ctxfree, rich), rand_body(rng, depth - 1, ctxfree, rich)]
@@ -220,14 +220,22 @@ def gen_cases(rng, tier):
                 for active in (0, 1):
                     for oc in range(NCLS):
                         yield {'op': 'call', 'p': p, 'use': use, 'a': a, 'active': active, 'oc': oc, 'ok': (p + use + a + oc) % 3}
-    # remove_path_on_error
-    for rm in range(4):
+    # direct call with a STORED exception (raised and caught earlier: it has a traceback) that is not the one being
+    # handled: (i) no active exception, (ii) inside an unrelated except block; (iii) = a == 0 above
+    for p in range(len(P.PREDS)):
+        for use in range(4):
+            for active in (0, 1):
+                for sc in range(NCLS):
+                    yield {'op': 'call', 'p': p, 'use': use, 'p2': (p + 1 + sc) % len(P.PREDS), 'a': 4, 'active': active,
+                           'oc': (sc + p) % NCLS, 'ok': (p + use + sc) % 3, 'sc': sc}
+    # remove_path_on_error; removers 2.. FAIL (2, 3: program exceptions; 4-6: OSError with ENOTEMPTY / EACCES / ENOENT)
+    for rm in range(7):
         yield {'op': 'rpoe', 'rm': rm, 'body': ['noop']}
         for c in range(NCLS):
             for k in range(3):
                 yield {'op': 'rpoe', 'rm': rm, 'body': ['raise', c, k, 10]}
     for i in range(300 if quick else 10000):
-        yield {'op': 'rpoe', 'rm': rng.randrange(1, 4) if i % 8 else 0,
+        yield {'op': 'rpoe', 'rm': rng.randrange(1, 7) if i % 8 else 0,
                'body': lab(rand_body(rng, rng.randint(2, 4), ctxfree=True), rng.randrange(1000))}
     # raise_with_cause
     for cc in (0, 1):
@@ -308,6 +316,7 @@ def oracle(c, io):
         if v == 0 and not f['arg_none']:
             if not f['out_is_arg']: return 'predicate rejected the exception but the call did not raise that same object'
             if f['arg_is_cur'] and not f['cur_tb_kept']: return 're-raised current exception lost its traceback'
+            if not f['arg_tb_kept']: return 'the rejected exception came out without the traceback of its own original raise'
         if v == 0 and f['arg_none'] and f['out_none']: return 'predicate rejected None and nothing was raised'
         if v == 2 and f['out_label'] != 1002: return 'predicate raised but its exception did not come out'
     elif op == 'rpoe':
@@ -372,7 +381,7 @@ def encode(c):
         m = {'with': 0, 'direct': 1, 'noactive': 2, 'post': 2}[c['mode']] + c.get('post', 0)
         return ['sare', m, c['r0'], c['oc'], c['ok']] + toks(c['body'])
     if op == 'filter': return ['filter', c['p'], c['use']] + toks(c['body'])
-    if op == 'call': return ['call', c['p'], c['use'], c['a'], c['active'], c['oc'], c['ok']]
+    if op == 'call': return ['call', c['p'], c['use'], c['a'], c['active'], c['oc'], c['ok'], c.get('sc', 2)]
     if op == 'rpoe': return ['rpoe', c['rm']] + toks(c['body'])
     if op == 'cause': return ['cause', c['cc'], c['given'], c['active'], c['oc'], c['ok']]
     return None
